@@ -53,7 +53,26 @@ class Verifier(Engine, StmtMixin, ExprMixin, CallMixin, BuiltinMixin):
             if not hint.strip().startswith('unfold('):
                 raise Unsupported('a textual hint must be an unfold(...) of a spec definition')
             return self.ev_spec(hint, st)
-        name, binding = hint
+        name, binding = hint[0], hint[1]
+        if len(hint) > 2 and hint[2] == 'optional':
+            # a hint that only makes sense on some paths (e.g. refers to the arguments of a call)
+            try:
+                return self.instantiate((name, binding), st)
+            except Unsupported:
+                return z3.BoolVal(True)
+        if len(hint) > 2 and hint[2] == 'entry':
+            # the axiom is instantiated in the state at the head of the current loop iteration
+            ent = st.env.get('$entry')
+            if ent is None:
+                raise Unsupported('entry-state hint outside a loop')
+            o = ent.t
+            tmp = st.copy()
+            tmp.env = dict(o.env)
+            tmp.heap = dict(o.heap)
+            tmp.ghost = dict(o.ghost)
+            r = self.instantiate((name, binding), tmp)
+            st.pc[:] = tmp.pc
+            return r
         for an, text, vars_, source, q in self.reg.axioms:
             if an == name:
                 break
@@ -191,6 +210,7 @@ class Verifier(Engine, StmtMixin, ExprMixin, CallMixin, BuiltinMixin):
         # parameters in `ensures` refer to their entry values (Python rebinding is local)
         for k, v in pre.env.items():
             st.env.setdefault(k, v)
+        st = self.exit_steps(c, st, pre, line)
         for k, en in enumerate(c.ensures):
             g = self.ev_spec(en, st, old=pre)
             self.oblige('post', st, g, line, en, tag=f'#{k}')
@@ -198,11 +218,24 @@ class Verifier(Engine, StmtMixin, ExprMixin, CallMixin, BuiltinMixin):
             # exception-freedom contracts still record that the path returns normally
             self.oblige('returns', st, z3.BoolVal(True), line, 'normal return (no functional postcondition)')
 
+    def exit_steps(self, c, st, pre, line):
+        for k, a in enumerate(c.exit_asserts):
+            try:
+                g = self.ev_spec(a, st, old=pre)
+            except Unsupported:
+                continue
+            self.oblige('exit-assert', st, g, line, a, tag=f'#{k}')
+            st = st.copy().assume(g)
+        for h in c.exit_hints:
+            st.assume(self.instantiate(h, st))
+        return st
+
     def check_raise(self, c, o, pre):
         st = o.st
         if c.raises is None:
             return
         goals = []
+        st = self.exit_steps(c, st, pre, o.line)
         for ename, cond_tx in c.raises.items():
             st.env = dict(st.env)
             for k, v in pre.env.items():
